@@ -167,7 +167,12 @@ def handle (j : Json) : Except String Json := do
       let d ← getDialect j
       let D ← (← argArr j "decls").mapM getEntity
       match generateSt d D with
-      | .ok st => pure (Json.mkObj [("ok", jSchema d st.schema.1), ("attrs", jAttrState D st)])
+      | .ok st => pure (Json.mkObj [("ok", jSchema d st.schema.1), ("attrs", jAttrState D st),
+          ("placed", .arr (st.placed.reverse.map (fun p => Json.mkObj [("table", jName p.table), ("entity", jName p.ent),
+              ("attr", jName p.attr), ("cols", jNames p.cols), ("notNull", .bool p.notNull)])).toArray),
+          ("linked", .arr (st.linked.reverse.map (fun p => Json.mkObj [("entity", jName p.ent), ("attr", jName p.attr),
+              ("child", jName p.child), ("cols", jNames p.cols), ("parent", jName p.parent),
+              ("parentCols", jNames p.parentCols)])).toArray)])
       | .error e => pure (jErr e)
   | _ => throw s!"unknown op {op}"
 end PonyVerif.Drive.C26
